@@ -220,15 +220,17 @@ Theorem C17_src_methods_are_the_model : forall hops o s, In o (oto_run hops) ->
 Proof. exact src_methods_eq_model_on_reachable. Qed.
 Print Assumptions C17_src_methods_are_the_model.
 
-(* (T), source level, ManyToMany: the bodies of add, remove and __delitem__
-   (statements on self.data / self.inv.data, dicts of set objects mutated in
-   place; a loop over the popped set), transcribed from the CURRENT source, are
-   the model's m_add / m_remove / m_delitem on every reachable instance through
-   either side (the KeyErrors of the inverse-side updates never fire). *)
+(* (T), source level, ManyToMany: the bodies of add, remove, __delitem__ and
+   replace (statements on self.data / self.inv.data, dicts of set objects mutated
+   in place, also through a local alias; loops over a popped set), transcribed
+   from the CURRENT source, are the model's m_add / m_remove / m_delitem /
+   m_replace on every reachable instance through either side (the KeyErrors of
+   the inverse-side updates never fire). *)
 Theorem C17_src_m2m_methods_are_the_model : forall hops m s, In m (m2m_run hops) ->
   let x := m2m_side s m in
   (forall k v, srcm_add x k v = Ok (VNone, m_add x k v)) /\
   (forall k v, srcm_remove x k v = lift_m (m_remove x k v)) /\
-  (forall k, srcm_delitem x k = lift_m (m_delitem x k)).
-Proof. exact srcm_eq_model_on_reachable3. Qed.
+  (forall k, srcm_delitem x k = lift_m (m_delitem x k)) /\
+  (forall k nk, srcm_replace x k nk = Ok (VNone, m_replace x k nk)).
+Proof. exact srcm_eq_model_on_reachable4. Qed.
 Print Assumptions C17_src_m2m_methods_are_the_model.
